@@ -11,7 +11,7 @@ from vf.values import show
 
 PID = "C08"
 
-FIRSTS = ["connect-ok", "connect-bad-secret", "connect-object-none", "connect-object-empty", "connect-object-zero", "connect-object-list", "connect-ok-json", "connect-ok-marshal", "connect-ok-msgpack", "connect-daemon", "connect-unknown-object", "connect-unregistered-object", "connect-unknown-serializer", "connect-serializer-0",
+FIRSTS = ["connect-ok", "connect-bad-secret", "connect-object-none", "connect-object-empty", "connect-object-zero", "connect-object-list", "connect-ok-json", "connect-ok-marshal", "connect-ok-msgpack", "connect-daemon", "connect-unknown-object", "connect-unregistered-object", "connect-dead-weak-object", "connect-unknown-serializer", "connect-serializer-0",
           "connect-no-handshake-key", "connect-no-object-key", "connect-nondict", "connect-list", "connect-undecodable", "connect-empty-payload",
           "type-connectok", "type-connectfail", "type-invoke", "type-invoke-oneway", "type-invoke-batch", "type-result", "type-ping", "type-0", "type-7", "type-255",
           "bad-magic", "bad-version", "garbage16", "http-request", "truncated-header", "nothing"]
@@ -93,6 +93,7 @@ def make_run(cfg):
             "connect-object-list": lambda: msg(protocol.MSG_CONNECT, 0, 1, 1, serp.dumps({"handshake": "hello", "object": []})),
             "connect-unknown-object": lambda: msg(protocol.MSG_CONNECT, 0, 1, 1, serp.dumps({"handshake": "hello", "object": "nope"})),
             "connect-unregistered-object": lambda: msg(protocol.MSG_CONNECT, 0, 1, 1, serp.dumps({"handshake": "hello", "object": "gone"})),
+            "connect-dead-weak-object": lambda: msg(protocol.MSG_CONNECT, 0, 1, 1, serp.dumps({"handshake": "hello", "object": "dead"})),
             "connect-unknown-serializer": lambda: msg(protocol.MSG_CONNECT, 0, 1, 99, serp.dumps(ok)),
             "connect-serializer-0": lambda: msg(protocol.MSG_CONNECT, 0, 1, 0, serp.dumps(ok)),
             "connect-no-handshake-key": lambda: msg(protocol.MSG_CONNECT, 0, 1, 1, serp.dumps({"object": "obj"})),
@@ -146,6 +147,11 @@ def make_run(cfg):
                         gp._pyroHandshake = "hello"
                         gp.token("warm-up")
                     d.unregister("gone")
+                if first == "connect-dead-weak-object":
+                    # a weakly registered object that has just died while the daemon's finalizer for it has not run yet (collection timing):
+                    # the registry still holds the dead reference
+                    import weakref
+                    d.objectsById["dead"] = weakref.ref(targets.LogTarget())
                 sock = w.net.create_socket(connect=("h", 1))
                 conn = socketutil.SocketConnection(sock)
                 try:
